@@ -1,5 +1,5 @@
 use rusty_common::{AtPos, Position, Positioned};
-use rusty_parser::{AsBareName, DimVar, Parameter, TypedName, VarType};
+use rusty_parser::{AsBareName, DimVar, ParamType, Parameter, TypedName, VarType};
 
 use crate::core::{ConstLookup, IntoTypeQualifier, LintError, LintErrorPos, LinterContext};
 
@@ -70,7 +70,8 @@ impl CannotClashWithFunctions for Parameter {
         pos: Position,
     ) -> Result<(), LintErrorPos> {
         if let Some(func_qualifier) = ctx.function_qualifier(self.as_bare_name()) {
-            if self.var_type().is_extended() {
+            if self.var_type().is_extended() || matches!(self.var_type(), ParamType::Array(_)) {
+                // an array parameter cannot share the name of the function either
                 Err(LintError::DuplicateDefinition.at_pos(pos))
             } else {
                 // for some reason you can have a FUNCTION Add(Add)
